@@ -66,6 +66,7 @@ type suggestion struct {
 	TypeKept     bool   `json:"typeKept"`
 	TypeBefore   string `json:"typeBefore,omitempty"`
 	TypeAfter    string `json:"typeAfter,omitempty"`
+	PosInRange   bool   `json:"posInRange"` // the reported position lies inside the replaced range
 	StillThere   bool   `json:"stillThere"` // re-analysis reports the same diagnostic at the same place
 	MarkersLost  int    `json:"markersLost"`
 }
@@ -190,6 +191,9 @@ func locate(fset *token.FileSet, tf *token.File, f *ast.File, src []byte, checke
 		s.Located = s.From <= s.To && s.To <= len(src)
 		if s.Located {
 			s.Flagged = string(src[s.From:s.To])
+		}
+		if off := tf.Offset(w.Pos); off >= s.From && off <= s.To {
+			s.PosInRange = true
 		}
 		return s, true
 	}
